@@ -1,7 +1,8 @@
 (* C17 - property theorems only (statements for ALL n, k, magic; no size bound
    other than the explicitly stated machine-arithmetic regions). *)
-From Coq Require Import List Bool ZArith NArith QArith Lia Permutation.
-From NV.C17 Require Import Model ProofsPerm ProofsComb ProofsSign ProofsTwo ProofsStat.
+From Coq Require Import List Bool ZArith NArith QArith Qround Lia Permutation.
+From Coq Require Import Sorted.
+From NV.C17 Require Import Model ProofsPerm ProofsComb ProofsSign ProofsTwo ProofsVand ProofsStat.
 Import ListNotations.
 Close Scope Q_scope.
 
@@ -105,22 +106,54 @@ Proof. exact comb_periodic. Qed.
 Print Assumptions combination_periodic.
 
 (* ================================================================ sign flips *)
+(* Model = the current C (floor on doubles, fix 6262c59).  Q with the true
+   floor is exact for every finite, non-subnormal double magic; the only role
+   of the double format is which magics exist: all integers of magnitude
+   <= 2^53 do (double_exact_int), 2^53+1 does not. *)
 Open Scope Z_scope.
-Theorem sign_flips_are_binary_digits : forall n z, 0 <= z < 2 ^ 32 ->
+(* every integer magic, any sign, any size, any n: flag i = binary digit i
+   (two's complement digits for negative magics) *)
+Theorem sign_flips_are_binary_digits : forall n z,
   sign_flags n (inject_Z z) = bit_flags n z.
 Proof. exact sign_flags_bits. Qed.
 Print Assumptions sign_flips_are_binary_digits.
 
-Theorem sign_flips_injective : forall n z1 z2, (n <= 32)%nat ->
+(* arbitrary (non-integer) magic, as the C computes it: subject 0 is flipped
+   iff magic/2 is not an integer, the others follow the digits of floor(magic/2) *)
+Theorem sign_flips_any_magic : forall n (m : Q),
+  sign_flags (S n) m
+  = (if Qeq_bool (m / 2) (inject_Z (Qfloor (m / 2))) then false else true)
+      :: bit_flags n (Qfloor (m / 2)).
+Proof. exact sign_flags_any. Qed.
+Print Assumptions sign_flips_any_magic.
+
+Theorem sign_flips_injective : forall n z1 z2,
   0 <= z1 < 2 ^ Z.of_nat n -> 0 <= z2 < 2 ^ Z.of_nat n ->
   sign_flags n (inject_Z z1) = sign_flags n (inject_Z z2) -> z1 = z2.
 Proof. exact sign_flags_injective. Qed.
 Print Assumptions sign_flips_injective.
 
-Theorem sign_flips_surjective : forall fl, (length fl <= 32)%nat ->
+Theorem sign_flips_surjective : forall fl,
   exists z, 0 <= z < 2 ^ Z.of_nat (length fl) /\ sign_flags (length fl) (inject_Z z) = fl.
 Proof. exact sign_flags_surjective. Qed.
 Print Assumptions sign_flips_surjective.
+
+(* full-strength statement for the doubles: for every n <= 53 each magic of
+   [0, 2^n) is an exactly representable double (<= 2^53), distinct magics give
+   distinct patterns, and every pattern of length n is produced *)
+Theorem sign_flips_bijective_upto_53_subjects : forall n, (n <= 53)%nat ->
+  (forall z, 0 <= z < 2 ^ Z.of_nat n -> double_exact_int z) /\
+  (forall z1 z2, 0 <= z1 < 2 ^ Z.of_nat n -> 0 <= z2 < 2 ^ Z.of_nat n ->
+     sign_flags n (inject_Z z1) = sign_flags n (inject_Z z2) -> z1 = z2) /\
+  (forall fl, length fl = n ->
+     exists z, 0 <= z < 2 ^ Z.of_nat n /\ double_exact_int z /\ sign_flags n (inject_Z z) = fl).
+Proof. exact sign_flags_bijective_53. Qed.
+Print Assumptions sign_flips_bijective_upto_53_subjects.
+
+(* for n >= 54 the range [0,2^n) contains integers that are not doubles *)
+Theorem sign_flips_double_gap_above_53 : ~ double_exact_int (2 ^ 53 + 1).
+Proof. exact double_gap. Qed.
+Print Assumptions sign_flips_double_gap_above_53.
 
 Theorem sign_flips_identity_at_0 : forall x, fff_onesample_permute_signs x (inject_Z 0) = x.
 Proof. exact permute_signs_identity. Qed.
@@ -131,16 +164,11 @@ Theorem sign_flips_only_change_signs : forall x magic,
 Proof. exact permute_signs_pm. Qed.
 Print Assumptions sign_flips_only_change_signs.
 
-(* FINDING: the property quantifies over sample sizes up to 40, but for n >= 33
-   the enumeration over [0, 2^n) is not injective: FFF_FLOOR casts m/2 to int. *)
-Theorem sign_flips_injective_n33_refuted :
-  exists z1 z2, 0 <= z1 < 2 ^ 33 /\ 0 <= z2 < 2 ^ 33 /\ z1 <> z2 /\
-    sign_flags 33 (inject_Z z1) = sign_flags 33 (inject_Z z2).
-Proof.
-  exists 4294967296, 4294967298. split; [lia|]. split; [lia|]. split; [lia|].
-  exact (proj1 sign_flags_33_collision).
-Qed.
-Print Assumptions sign_flips_injective_n33_refuted.
+Example sign_flips_examples :
+  sign_flags 4 (inject_Z (-1)) = [true; true; true; true] /\
+  sign_flags 4 (Qmake 5 2) = [true; true; false; false] /\
+  sign_flags 34 (inject_Z 4294967296) = bit_flags 34 4294967296.
+Proof. exact sign_flags_examples. Qed.
 Close Scope Z_scope.
 
 (* ================================================================ two-sample *)
@@ -149,12 +177,11 @@ Theorem twosample_count_is_sum : forall n1 n2,
 Proof. exact ts_count_spec. Qed.
 Print Assumptions twosample_count_is_sum.
 
-(* Vandermonde: the count is C(n1+n2, n1).  Checked by computation for
-   n1, n2 <= 10 only (the general identity is not proved): partial. *)
-Theorem twosample_count_is_binomial_partial :
-  forallb (fun n1 => forallb (fun n2 => N.eqb (ts_count n1 n2) (binom (n1 + n2) n1)) (seq 0 11)) (seq 0 11) = true.
-Proof. vm_compute. reflexivity. Qed.
-Print Assumptions twosample_count_is_binomial_partial.
+(* Vandermonde, for all n1, n2: the number of relabellings the C enumerates is
+   C(n1+n2, n1), the number of ways to choose group 1 among n1+n2 subjects *)
+Theorem twosample_count_is_binomial : forall n1 n2, ts_count n1 n2 = binom (n1 + n2) n1.
+Proof. exact ts_count_vandermonde. Qed.
+Print Assumptions twosample_count_is_binomial.
 
 Theorem twosample_decoding : forall n1 n2 i r, i <= Nat.min n1 n2 ->
   (r < binom n1 i * binom n2 i)%N ->
@@ -211,10 +238,54 @@ Theorem sign_stat_antisymmetric : forall x base,
 Proof. exact os_sign_stat_flip. Qed.
 Print Assumptions sign_stat_antisymmetric.
 
-Theorem twosample_wilcoxon_label_swap_free_of_ties_partial : forall a b,
-  qsign (a - b) == - qsign (b - a).
-Proof. exact qsign_swap. Qed.
-Print Assumptions twosample_wilcoxon_label_swap_free_of_ties_partial.
+(* fff_vector_ssd's Koenig formula  sum x^2 - n m^2  is the sum of squared deviations *)
+Theorem ssd_is_sum_of_squared_deviations : forall x, x <> [] ->
+  vec_ssd x == qsum (map (fun v => (v - qsum x / qlen x) * (v - qsum x / qlen x)) x).
+Proof. exact vec_ssd_def. Qed.
+Print Assumptions ssd_is_sum_of_squared_deviations.
+
+(* Student, sqrt abstract (only assumed to respect ==):
+   t = sqrt(n-1) (m - base) / sqrt(ssd/n)  with the library's normalisation *)
+Theorem student_def : forall (sqrtq : Q -> Q), (forall a b, a == b -> sqrtq a == sqrtq b) ->
+  forall x base, x <> [] ->
+  let m := qsum x / qlen x in
+  let ssd := qsum (map (fun v => (v - m) * (v - m)) x) in
+  let aux := sqrtq (qlen x - 1) * (m - base) in
+  let std := sqrtq (ssd / qlen x) in
+  ~ aux == 0 -> ~ std == 0 -> xeq (os_student sqrtq x base) (Fin (aux / std)).
+Proof. exact os_student_def. Qed.
+Print Assumptions student_def.
+
+Theorem student_zero_when_mean_is_base : forall (sqrtq : Q -> Q) x base,
+  sqrtq (qlen x - 1) * (qsum x / qlen x - base) == 0 -> os_student sqrtq x base = Fin 0.
+Proof. exact os_student_zero. Qed.
+Print Assumptions student_zero_when_mean_is_base.
+
+Theorem student_antisymmetric : forall (sqrtq : Q -> Q), (forall a b, a == b -> sqrtq a == sqrtq b) ->
+  forall x base, xeq (os_student sqrtq (map Qopp x) (- base)) (xopp (os_student sqrtq x base)).
+Proof. exact os_student_flip. Qed.
+Print Assumptions student_antisymmetric.
+
+(* Wilcoxon signed rank: the residuals are rearranged in non-decreasing |x - base|
+   (position = rank), t = sum rank * sign / n^2 *)
+Theorem wilcoxon_def : forall x base,
+  let r := sort_abs (map (fun v => v - base) x) in
+  Permutation r (map (fun v => v - base) x) /\ Sorted abs_le r /\
+  os_wilcoxon x base = rank_sign_sum 1 r / (qlen x * qlen x).
+Proof. exact os_wilcoxon_uses_ranks. Qed.
+Print Assumptions wilcoxon_def.
+
+Theorem wilcoxon_antisymmetric : forall x base,
+  os_wilcoxon (map Qopp x) (- base) == - os_wilcoxon x base.
+Proof. exact os_wilcoxon_flip. Qed.
+Print Assumptions wilcoxon_antisymmetric.
+
+(* two-sample Wilcoxon: swapping the labels of equally sized groups negates it
+   (for n1 <> n2 the two normalisers 1/n2 and 1/n1 differ: w(x2,x1) n1 = - w(x1,x2) n2) *)
+Theorem twosample_wilcoxon_label_swap_antisymmetric : forall x1 x2, qlen x1 == qlen x2 ->
+  ts_wilcoxon x2 x1 == - ts_wilcoxon x1 x2.
+Proof. exact ts_wilcoxon_swap. Qed.
+Print Assumptions twosample_wilcoxon_label_swap_antisymmetric.
 
 (* ================================================================ p-values *)
 Theorem calibrated_p_in_closed_unit_interval : forall draws t, draws <> [] ->
